@@ -135,6 +135,8 @@ def observe(ctx, batches):
             args += ['-mirror']
         if getattr(b, 'gadgets', False):
             args += ['-gadgets']
+        if getattr(b, 'staleroot', False):
+            args += ['-staleroot']
         if b.oddtargets:
             args += ['-oddtargets']
         if b.allfaults:
@@ -306,6 +308,9 @@ def s1_batches(ctx, opts, skip_collide=False):
                 wholeb(Batch(G_N4_S_WF, ORDINARY, opts, rots[:2], reps=2, names=sd['names'], spell='varied')),
                 wholeb(Batch(G_N3_D3_WF, lay2[:9], opts, rots[:1], reps=1, spell=sd['spell'])),
                 handb(Batch(G_N4_S_WF, ['sibling', 'subdir'], opts, rots, reps=1)),
+                staleb(Batch(G_N3_D3_WF, lay2[:6], opts, rots[:1], reps=1)),
+                staleb(Batch(G_N4_IP_WF, ORDINARY[:3], opts, rots[:1], reps=1)),
+                staleb(Batch(G_N4_SR_WF, ORDINARY[:3], opts, rots[:1], reps=1)),
                 Batch(('chain', 40), ['sibling', 'subdir'], opts, rots[:2], reps=1),
                 Batch(('chain', 120), ['sibling'], opts, rots[:1], reps=1),
                 Batch(('chain', 40), ['sibling'], opts[:1], rots[:1], reps=1, entry='ExpandSchema:typed,ExpandSchemaWithBasePath,ExpandParameterWithRoot'),
@@ -331,6 +336,9 @@ def s1_batches(ctx, opts, skip_collide=False):
             handb(Batch(G_N4_S_WF, ['sibling'], opts[:1], [sd['rot'], (sd['rot'] + 3) % 12, (sd['rot'] + 6) % 12], reps=1)),
             Batch(G_N3_ALL_WF, ['subdir', 'remote'], opts[:1], [sd['rot']], reps=1, names='perdoc', spell='simple'),
             mirrorb(Batch(G_N3_ALL_WF, ['subdir', 'parent'], opts, [sd['rot']], reps=2, names='perdoc', spell='simple')),
+            # the specification in memory is newer than what is stored at its location
+            staleb(Batch(G_N3_ALL_WF, ['sibling', 'subdir'], opts[:1], [sd['rot']], reps=1, names=sd['names'], spell=sd['spell'])),
+            staleb(Batch(G_N4_IP_WF if ctx.seed % 2 else G_N4_IR_WF, ['sibling'], opts[:1], [sd['rot']], reps=1)),
             gadgetb(Batch(G_N4_SR_WF if ctx.seed % 2 else G_N4_SP_WF, ['subdir'], opts[:1], [sd['rot']], reps=2, names='perdoc', spell='simple')),
             Batch(('chain', 40), ['sibling'], opts, [sd['rot']], reps=1),
             Batch(('chain', 40), ['sibling'], opts[:1], [sd['rot']], reps=1, entry='ExpandSchema:typed,ExpandSchemaWithBasePath')]
@@ -514,6 +522,11 @@ def mirrorb(b):
 
 def gadgetb(b):
     b.gadgets = True
+    return b
+
+
+def staleb(b):
+    b.staleroot = True
     return b
 
 
